@@ -104,7 +104,11 @@ FUNCS = {
     "strtok_s_nm":   ("_strtok_s_chk", "p", "pppQn", 1),
     "wcstok_s_nm":   ("_wcstok_s_chk", "p", "pppQn", 4),
     # F9
-    "strerror_s":    ("_strerror_s_chk", "e", "pnin", 1),
+    # F9 os strings (through harness/shims.h: the trailing pointer(s) are what the MODEL reads instead of process state)
+    "getenv_s":      ("shim_getenv_s", "e", "Npnpnp", 1),
+    "getenv_s_nl":   ("shim_getenv_s_nl", "e", "pnpnp", 1),
+    "strerror_s":    ("shim_strerror_s", "e", "pninpp", 1),
+    "strerrorlen_s": ("shim_strerrorlen_s", "n", "ip", 1),
 }
 
 
